@@ -259,7 +259,7 @@ def run(ctx: common.Ctx):
     nullable_fill_sweep(ctx)
     # creation functions whose shape / fill / bound is a placeholder, at graph level (Model/TGraphScatter; Props/C13Graph.lean)
     from .. import scattertie
-    scattertie.run(ctx, 90 if ctx.tier == "quick" else 2000, label="creation", kinds=("creation",))
+    scattertie.run(ctx, 90 if ctx.tier == "quick" else 1000, label="creation", kinds=("creation",))
 
 
 def nullable_fill_sweep(ctx):
